@@ -19,10 +19,13 @@ from hl7apy.core import Message, Segment
 from hl7apy.parser import parse_message
 from hl7apy.exceptions import MessageProfileNotFound, LegacyMessageProfile, MaxChildLimitReached, ChildNotValid
 
-STRUCTS = [('2.5', 'ADT_A01'), ('2.5', 'OML_O33'), ('2.5', 'RSP_K21')] + \
-    ([('2.3', 'ADT_A01'), ('2.4', 'ORM_O01'), ('2.6', 'ADT_A04'), ('2.7', 'ORU_R01'), ('2.5', 'SIU_S12'), ('2.5.1', 'ADT_A08'),
-      ('2.8', 'ADT_A01'), ('2.5', 'VXU_V04')] if THOROUGH else [])
+import random as _random
+STRUCTS = [('2.5', 'ADT_A01'), ('2.5', 'OML_O33'), ('2.5', 'RSP_K21'), ('2.3', 'ADT_A01'), ('2.4', 'ORM_O01'), ('2.6', 'ADT_A04'),
+           ('2.7', 'ORU_R01'), ('2.5', 'SIU_S12'), ('2.5.1', 'ADT_A08'), ('2.8', 'ADT_A01'), ('2.5', 'VXU_V04')]
 STRUCTS = [(v, m) for v, m in STRUCTS if m in T.LIBS[v].MESSAGES]
+_rest = [(v, m) for v in T.VERSIONS for m in T.MSGS[v] if (v, m) not in STRUCTS and m == m.upper() and
+         all(n in T.SEGS[v] and T.seg_children(v, n) is not None for n in B.structure_names(T.LIBS[v].MESSAGES[m]))]
+STRUCTS += _random.Random(1800 + __import__('vlib.chglue', fromlist=['SEED']).SEED).sample(_rest, 120 if THOROUGH else 30)
 NS = len(STRUCTS)
 EDITS = ['identity', 'tighten', 'require', 'forbid', 'retype']
 NE = len(EDITS)
@@ -45,10 +48,12 @@ def make_profile(v, m, edit, t):
     ref = std(v, m)
     top = list(ref[1])
     kind = EDITS[edit]
+    allnames = B.structure_names(ref)
+    once = lambda name: allnames.count(name) == 1      # the edit speaks about a segment that has a single place in the structure
     if kind == 'identity':
         return {m: ref}, None
     if kind == 'tighten':
-        cands = [k for k, c in enumerate(top) if c[3] == 'SEG' and c[2][1] == -1 and c[0] != 'MSH']
+        cands = [k for k, c in enumerate(top) if c[3] == 'SEG' and c[2][1] == -1 and c[0] != 'MSH' and once(c[0])]
         if not cands:
             return None, None
         k = cands[t % len(cands)]
@@ -56,7 +61,7 @@ def make_profile(v, m, edit, t):
         top[k] = (c[0], c[1], (c[2][0], 1), c[3])
         return {m: (ref[0], tuple(top))}, c[0]
     if kind in ('require', 'forbid'):
-        cands = [k for k, c in enumerate(top) if c[3] == 'SEG' and c[2][0] == 0 and T.seg_children(v, c[0])]
+        cands = [k for k, c in enumerate(top) if c[3] == 'SEG' and c[2][0] == 0 and T.seg_children(v, c[0]) and once(c[0])]
         if not cands:
             return None, None
         k = cands[t % len(cands)]
@@ -68,7 +73,7 @@ def make_profile(v, m, edit, t):
         return {m: (ref[0], tuple(top))}, c[0]
     # retype: first top-level segment (not MSH) having an ST / NM leaf field
     for k, c in enumerate(top):
-        if c[3] != 'SEG' or c[0] == 'MSH':
+        if c[3] != 'SEG' or c[0] == 'MSH' or not once(c[0]):
             continue
         fields = list(c[1][1])
         leafs = [q for q, f in enumerate(fields) if f[1][0] == 'leaf' and f[1][2] in ('ST', 'NM')]
@@ -87,7 +92,18 @@ def build(v, m, path, profile, extra_segments, strict=False):
     """message conforming to the standard structure (+ extra top-level segment lines), created through `path`"""
     level = 1 if strict else 2
     text = B.message_text(v, m, 'required')
-    lines = text.split('\r') + extra_segments
+    lines = text.split('\r')
+    order = B.structure_names(std(v, m))
+    for ln in extra_segments:
+        # put the line where the structure has that segment: before the first later-in-structure segment present
+        pos = len(lines)
+        if ln[:3] in order:
+            later = order[order.index(ln[:3]) + 1:]
+            for q, have in enumerate(lines[1:], 1):
+                if have[:3] in later and have[:3] != ln[:3]:
+                    pos = q
+                    break
+        lines.insert(pos, ln)
     if path == 0:
         return parse_message('\r'.join(lines), validation_level=level, message_profile=profile)
     msg = Message(m, version=v, validation_level=level, reference=profile)
@@ -132,6 +148,9 @@ def check(si, edit, t, path, trace=None):
         return True
     ok = True
     note = []
+    base_errors = _report(build(v, m, 0, None, []))[1]
+    if any(e.startswith('Invalid children detected for <Message') or e.startswith('Missing required child %s.' % m) for e in base_errors):
+        return True      # the reference builder cannot make a standard-conforming instance of this structure: nothing to compare
     if kind == 'identity':
         a = build(v, m, path, profile, [])
         b = build(v, m, path, None, [])
@@ -199,7 +218,8 @@ def check(si, edit, t, path, trace=None):
 def _shape(el):
     if el.classname == 'SubComponent':
         return (el.name, el.datatype)
-    return (el.classname, el.name, getattr(el, 'datatype', None), tuple(_shape(c) for c in el.children))
+    dt = el.datatype if el.classname in ('Field', 'Component') else None
+    return (el.classname, el.name, dt, tuple(_shape(c) for c in el.children))
 
 
 def lookup_errors(trace=None):
@@ -307,7 +327,7 @@ SPEC = {
     'outside': ['profiles not derivable by one edit; edits inside groups; structures outside the slice (%d)' % NS],
     'stubs': [],
     'obligations': [
-        {'name': 'edit', 'fn': '_ob_edit', 'parts': min(16, NS * NE), 'cond_timeout': 900, 'path_timeout': 60,
+        {'name': 'edit', 'fn': '_ob_edit', 'parts': 16, 'cond_timeout': 900, 'path_timeout': 60,
          'bound': '%d structures x edits %r x target t<%d x creation paths %r' % (NS, EDITS, NT, PATHS)},
         {'name': 'lookup', 'fn': '_ob_lookup', 'parts': 1, 'cond_timeout': 300, 'path_timeout': 60,
          'bound': 'MessageProfileNotFound / LegacyMessageProfile on constructor and parser; shipped iti_21 and old_pharm_h4 profiles'},
